@@ -23,21 +23,21 @@ T = {
  'C03': ('static analysis: workflow typestate (target set before search), guarded accept, order-preserving chain, aligned parallel lists, radix belief contradiction',
          'Decides: direct workflows set model and target before synthesis; search returns only under the threshold (or the logged best-effort exit); list inputs flow through order-preserving steps only; permutation tables are enumerated in the same nesting order where zipped; radix-dependent constructions build circuits of that radix.',
          'Convergence of numerical search and distance values are NOT decided.'),
- 'C04': ('static analysis: CFG path rules (DUNDER, DEAD), batch-order classification with a linear-form evaluator (BATCHORD), sequence-order rules (SEQORD)',
-         'Decides: in-place operators return self; documented result values are live; batch editors visit positions in an index-safe order; composite editors emit operations in program order and map locations through the given location.',
+ 'C04': ('static analysis: CFG path rules (DUNDER, DEAD), batch-order classification with a linear-form evaluator (BATCHORD), sequence-order rules (SEQORD), append/insert specifications (APPEND, INSERT), shadow propagation in straighten (SHADOW), operation-parameter flow on unfold (PARAMFLOW)',
+         'Decides: in-place operators return self; documented result values are live; batch editors visit positions in an index-safe order; composite editors emit operations in program order and map locations through the given location; straighten pushes every qudit of a moved operation; unfold/unfold_all inline a block with the operation\'s parameters.',
          'Equality with a list-of-cycles reference model over edit histories is NOT decided.'),
- 'C05': ('static analysis: effect extraction over Circuit mutators (REMAP, COUP), key normal form (NF), pointer-slot typing (DAGLINK), response path rule',
-         'Decides: every renumbering rewrites every index-bearing component of every view; edge-counter keys are created sorted; primitive mutators co-update grid, links, front/rear and both counters with consistent signs; prev/next pointer writes are well typed; pop removes a cycle it emptied.',
+ 'C05': ('static analysis: effect extraction over Circuit mutators (REMAP, COUP), key normal form (NF), pointer-slot typing (DAGLINK), response path rule, independent front/rear retargeting (FRONTREAR), read-API specifications (READAPI)',
+         'Decides: every renumbering rewrites every index-bearing component of every view; edge-counter keys are created sorted; primitive mutators co-update grid, links, front/rear and both counters with consistent signs; prev/next pointer writes are well typed; front and rear pointers are retargeted by independent tests in pop/replace/straighten; pop removes a cycle it emptied.',
          'View consistency over arbitrary edit histories and absence of empty cycles after straighten/fold are NOT decided.'),
- 'C06': ('static analysis: cursor discipline of sibling walkers (CURSOR), value-numbered clone comparison (CLONE)',
-         'Decides: every function that walks operations with a running parameter index uses the same iteration order, slices params[i:i+W] and advances i by the same W exactly once per iteration; apply_right/left and their eval_ clones have equal contraction expressions; gradient product-rule structure.',
+ 'C06': ('static analysis: cursor discipline of sibling walkers (CURSOR), value-numbered clone comparison (CLONE), index-space typing of circuit-wide vs operation-local parameter indices (IXT)',
+         'Decides: every function that walks operations with a running parameter index uses the same iteration order, slices params[i:i+W] and advances i by the same W exactly once per iteration; apply_right/left and their eval_ clones have equal contraction expressions; gradient product-rule structure; an operation-local parameter index never goes where a circuit-wide one is expected (and vice versa).',
          'Correctness of the contraction itself and numerical values are NOT decided.'),
  'C07': ('static analysis: message-protocol extraction and closure (PROTO), token/lock dataflow (TOKEN, LOCK), cross-thread atomicity (ATOM), precedence and sibling rules',
-         'Decides: the protocol is closed on all four channels with agreeing payload shapes and sibling consumers; round-trip requests are answered exactly once per path; the wake-once token is cleared when consumed; read-receipt lock discipline; mailbox exists before SUBMIT; routing siblings agree. Reports the non-atomic wake protocol as a known finding.',
+         'Decides: the protocol is closed on all four channels with agreeing payload shapes and sibling consumers; round-trip requests are answered exactly once per path; the wake-once token is cleared when consumed; read-receipt lock discipline; mailbox exists before SUBMIT; routing siblings agree; next() batches are handed over by reference before the reset. Reports the non-atomic wake protocol as a known finding.',
          'Delivery orders, thread interleavings, exactly-once execution and liveness are NOT decided.'),
- 'C08': ('static analysis: sibling agreement on barrier-like operations (SIB), exactly-one path rule in QuickPartitioner (PATH), live-parameter contradiction (PARAMLIVE)',
-         'Decides: each partitioner discriminates barrier/measurement/reset before grouping (five known findings); QuickPartitioner puts every operation in exactly one bin and only original points reach the output; a bounding argument passed by a caller is honoured by the callee.',
-         'Block width bounds, dependency blocking and order preservation are algorithmic and NOT decided.'),
+ 'C08': ('static analysis: sibling agreement on barrier-like operations (SIB), exactly-one path rule in QuickPartitioner (PATH), live-parameter contradiction (PARAMLIVE), transitive-blocking co-update (CLOSURE), operation-parameter flow on block re-wrapping (PARAMFLOW)',
+         'Decides: each partitioner discriminates barrier/measurement/reset before grouping (five known findings); QuickPartitioner puts every operation in exactly one bin and only original points reach the output; a bounding argument passed by a caller is honoured by the callee; a bin that must wait for another inherits what that one waits for; ExtendBlockSizePass re-wraps a block with the operation\'s parameters.',
+         'Block width bounds and order preservation on concrete circuits are algorithmic and NOT decided (only the transitivity co-update of the blocking sets is).'),
  'C09': ('static analysis: effect pairing in the forward passes (PAIR), index-space typing (IXT), data-flow of the executable list (FLOW), eq/hash (HASH), aligned lists (ALIGN)',
          'Decides: every change of pi is mirrored by an emitted swap (and vice versa) on every path; emitted locations are physical; operations are emitted only if _can_exe held; mapping writes are well typed and placed after the forward pass; CouplingGraph hash is order independent.',
          'Equality of output and input under the mappings, termination of the uphill escape and connectivity of placements are NOT decided.'),
@@ -47,11 +47,11 @@ T = {
  'C11': ('static analysis: CFG specifications of control passes (SPEC), co-update and data-flow rules for ForEachBlockPass (COUP, FLOW), capture/restore pairing (PAIR), field completeness (FIELDS)',
          'Decides: each control pass runs its bodies under exactly the predicate edges its specification names; ForEachBlockPass records point/op/error together from positions captured before the body ran and writes back once; rejected branches restore circuit and data; PassData.become restores every field.',
          'Error-bound arithmetic being an upper bound and batch_replace compensation on concrete circuits are NOT decided.'),
- 'C12': ('static analysis: container coverage of the cancel handler (COVER), path rules over cancel/forward/refuse sites (MUST), release-on-discard (LEAK)',
-         'Decides: cancel reaches every task-holding container of the worker, every role forwards it, results/awaits of cancelled work are refused, finished owners cancel unfinished children; reports the two discard branches that leak a _tasks entry as known findings.',
+ 'C12': ('static analysis: container coverage of the cancel handler (COVER), path rules over cancel/forward/refuse sites (MUST), release-on-discard (LEAK), admissible refusal conditions (REFUSE), monotone id allocators (FRESH)',
+         'Decides: cancel reaches every task-holding container of the worker, every role forwards it, results/awaits of cancelled work are refused, finished owners cancel unfinished children; the server declines a cancel only for unknown/cancelled/foreign tasks; mailbox ids are never reused; reports the two discard branches that leak a _tasks entry as known findings.',
          'Races between CANCEL and RESULT and quiescent emptiness in general are NOT decided.'),
- 'C13': ('static analysis: tainted-key guard analysis with table invariants (KEYGUARD), ownership checks (OWNER), error-chain path rules (MUST)',
-         'Decides: every client-keyed table access in the server loop is guarded, defaulted or covered by a listed invariant (so no request raises KeyError into the loop); handlers check ownership; task errors are forwarded worker -> server -> owning client -> exception.',
+ 'C13': ('static analysis: tainted-key guard analysis with table invariants (KEYGUARD), ownership checks (OWNER), error-chain path rules (MUST), monotone id allocator (FRESH)',
+         'Decides: every client-keyed table access in the server loop is guarded, defaulted or covered by a listed invariant (so no request raises KeyError into the loop); handlers check ownership; task errors are forwarded worker -> server -> owning client -> exception, tagged with the compilation id; server mailbox ids are never reused.',
          'Multi-client interleavings are NOT enumerated; table invariants I1-I8 are asserted (their same-block maintenance is checked).'),
  'C14': ('static analysis: classification of blocking receives in loops (RECV) and path rules over the shutdown chain (MUST)',
          'Decides: a connection-loss exception in any receive/send loop propagates or reaches a terminating effect; losing an employee connection leads to shutdown, which tells and joins every employee, closes client connections and is forwarded on every role; client calls convert a closed connection into an exception.',
@@ -62,9 +62,9 @@ T = {
  'C16': ('static analysis: field completeness (FIELDS), pickle writer/reader shape agreement (REDUCE), eq/hash consistency (HASH), reserved-key registry (REG)',
          'Decides: copy/become/clear and the CouplingGraph copy-constructor carry every __init__ field; Circuit.__reduce__ and rebuild_circuit agree on state shape, gate indexing, dill flag and cycle grouping; every eq/hash pair in bqskit/ is consistent and order independent.',
          'Equality of concrete round-tripped objects and dill coverage of closures are NOT decided.'),
- 'C17': ('static analysis: registry agreement between QASM writer and reader tables and between grammar, evaluator and the OpenQASM 2 function set (REG), translator data-flow (FLOW)',
-         'Decides: every statically named gate spelling the writer can emit is in the reader table with the same arity and constructor (known gaps reported); grammar function terminals = evaluator table = OpenQASM 2 set; every semantic grammar rule has a visitor method; translators go through the QASM codec.',
-         'Unitary agreement with Qiskit, register index arithmetic and parameter binding in nested definitions are NOT decided.'),
+ 'C17': ('static analysis: registry agreement between QASM writer and reader tables and between grammar, evaluator and the OpenQASM 2 function set (REG), translator data-flow (FLOW), register-offset cursor discipline and index-space typing in the reader (REGOFF)',
+         'Decides: every statically named gate spelling the writer can emit is in the reader table with the same arity and constructor (known gaps reported); grammar function terminals = evaluator table = OpenQASM 2 set; every semantic grammar rule has a visitor method; translators go through the QASM codec; every register-local qubit index reaches the circuit only shifted by its register\'s offset, computed by a cursor that starts at 0 and advances by each register\'s size.',
+         'Unitary agreement with Qiskit and parameter binding in nested definitions are NOT decided.'),
  'C18': ('static analysis: eq/hash consistency (HASH), override pairing (OVERRIDE), value-numbered agreement of get_unitary/get_grad/get_unitary_and_grad (TRIAD), gradient literal shapes (GRADSHAPE, SIBTEMP)',
          'Decides: all gate classes have consistent, order-independent eq/hash; inverse methods are overridden together; the three evaluation entry points of delegating gates are the same expressions; hand-written gradient literals have one matrix per parameter with the unitary\'s shape.',
          'Unitarity, derivative values, calc_params and agreement with the binary expression backend are numerical and NOT decided.'),
